@@ -25,51 +25,36 @@ theorem cw_minimax_wv {v : Pairwise} (hwf : WF v) {w : Cand} (hw : IsCW v w) :
     minimax .winningVotes v 1 = [Slot.cand w] := by
   apply minimax_cw_of_scores _ _ hw.1
   · intro t ht
-    obtain ⟨e, he, rfl⟩ := List.mem_map.1 ht
-    obtain ⟨hev, hew⟩ := List.mem_filter.1 he
-    simp only [decide_eq_true_eq] at hew
-    obtain ⟨⟨x, y⟩, cnt⟩ := e
-    simp only at hew
-    subst hew
-    have hx : x ∈ candidates v := fst_mem_candidates hev
-    have hne : x ≠ y := hwf.2.1 _ hev
-    have hb := hw.2 x hx hne
-    have hcnt : pget v (x, y) = cnt := pget_of_mem hwf.1 hev
-    simp only [scoreOf]
-    rw [← hcnt]
+    obtain ⟨o, ho, _, hne, rfl⟩ := mem_defeatsOf_allPairs.1 ht
+    have hb := hw.2 o ho hne
+    simp only [pairScore]
+    unfold Beats at hb
     rw [if_neg (not_lt.2 (le_of_lt hb))]
   · intro o ho hne
     have hb := hw.2 o ho hne
     have hpos : 0 < pget v (w, o) := lt_of_le_of_lt (pget_nonneg hwf _) hb
-    refine ⟨pget v (w, o), ?_, hpos⟩
-    refine List.mem_map.2 ⟨((w, o), pget v (w, o)), List.mem_filter.2 ⟨pget_pos_mem hpos, by simp⟩, ?_⟩
-    simp only [scoreOf]
-    exact if_pos hb
+    refine ⟨pairScore .winningVotes v w o, mem_defeatsOf_allPairs.2 ⟨w, hw.1, ho, fun h => hne h.symm, rfl⟩, ?_⟩
+    simp only [pairScore]
+    unfold Beats at hb
+    rw [if_pos hb]
+    exact hpos
 
 /-- **Minimax by margins** elects exactly the Condorcet winner. -/
-theorem cw_minimax_margins {v : Pairwise} (hwf : WF v) {w : Cand} (hw : IsCW v w) :
+theorem cw_minimax_margins {v : Pairwise} (_hwf : WF v) {w : Cand} (hw : IsCW v w) :
     minimax .margins v 1 = [Slot.cand w] := by
   apply minimax_cw_of_scores _ _ hw.1
   · intro t ht
-    obtain ⟨e, he, rfl⟩ := List.mem_map.1 ht
-    obtain ⟨hev, hew⟩ := List.mem_filter.1 he
-    simp only [decide_eq_true_eq] at hew
-    obtain ⟨⟨x, y⟩, cnt⟩ := e
-    simp only at hew
-    subst hew
-    have hx : x ∈ candidates v := fst_mem_candidates hev
-    have hne : x ≠ y := hwf.2.1 _ hev
-    have hb := hw.2 x hx hne
-    have hcnt : pget v (x, y) = cnt := pget_of_mem hwf.1 hev
-    simp only [scoreOf]
-    rw [← hcnt]
+    obtain ⟨o, ho, _, hne, rfl⟩ := mem_defeatsOf_allPairs.1 ht
+    have hb := hw.2 o ho hne
+    simp only [pairScore]
     unfold Beats at hb
     linarith
   · intro o ho hne
     have hb := hw.2 o ho hne
-    have hpos : 0 < pget v (w, o) := lt_of_le_of_lt (pget_nonneg hwf _) hb
-    refine ⟨pget v (w, o) - pget v (o, w), ?_, by unfold Beats at hb; linarith⟩
-    exact List.mem_map.2 ⟨((w, o), pget v (w, o)), List.mem_filter.2 ⟨pget_pos_mem hpos, by simp⟩, rfl⟩
+    refine ⟨pairScore .margins v w o, mem_defeatsOf_allPairs.2 ⟨w, hw.1, ho, fun h => hne h.symm, rfl⟩, ?_⟩
+    simp only [pairScore]
+    unfold Beats at hb
+    linarith
 
 /-- **Schulze** elects exactly the Condorcet winner: every direct win of `w` keeps a positive path
     strength, no path into `w` ever gets one, so `w` wins every path comparison and everybody else loses
@@ -225,13 +210,13 @@ theorem no_candidate_dropped_minimax (sc : Scorer) (v : Pairwise) (n : Nat)
     (hn : (candidates v).length ≤ n) : ∀ c ∈ candidates v, Slot.cand c ∈ minimax sc v n := by
   intro c hc
   rw [minimax_eq]
-  have hk := okeys_maxCounterscore sc v
+  have hk := okeys_minimaxTable sc v
   apply mem_getNBest_all
   · rw [List.length_map]
-    have : (maxCounterscore sc v).length = (okeys (maxCounterscore sc v)).length := by simp [okeys]
+    have : (minimaxTable sc v).length = (okeys (minimaxTable sc v)).length := by simp [okeys]
     rw [this, hk]; exact hn
   · simp only [keys, List.map_map, Function.comp_def]
-    change c ∈ okeys (maxCounterscore sc v)
+    change c ∈ okeys (minimaxTable sc v)
     rw [hk]; exact hc
 
 /-- **Schulze**: with at least as many seats as candidates every candidate is listed. -/
@@ -262,26 +247,20 @@ theorem copeland_defining {v : Pairwise} (hwf : WF v) (n : Nat) :
   intro c _
   rw [getD_copelandScoresRaw, winsBy_eq_filter hwf, lossesOf_eq_filter hwf]
 
-/-- **Minimax's worst counter-score** of `c` is the maximum of the scores of the pairs of the dictionary in
-    which `c` is the lower candidate, and `-inf` (`none`) exactly when there is no such pair.  (The maximum
-    runs over the pairs PRESENT in the dictionary — on sparse dictionaries this is not the worst defeat
-    over all opponents, see `minimax_never_loser_witness`.) -/
-theorem minimax_worst_counterscore (sc : Scorer) (v : Pairwise) (c : Cand) :
-    match oget (maxCounterscore sc v) c with
-    | none => defeatsOf sc v c = []
-    | some s => s ∈ defeatsOf sc v c ∧ ∀ t ∈ defeatsOf sc v c, t ≤ s := by
-  rw [oget_maxCounterscore]
-  cases h : (defeatsOf sc v c).foldl omax none with
-  | none => exact omaxFold_none _ h
-  | some s =>
-    refine ⟨?_, fun t ht => ?_⟩
-    · rcases omaxFold_mem _ _ h with h1 | h1
-      · simp at h1
-      · exact h1
-    · obtain ⟨s', hs', hle⟩ := omaxFold_ge (defeatsOf sc v c) none ht
-      rw [h] at hs'
-      simp only [Option.some.injEq] at hs'
-      rw [hs']; exact hle
+/-- **Minimax ranks by the worst defeat over ALL opponents.**  The value handed to `get_n_best` for candidate
+    `c` is the negated worst defeat, the maximum over every other candidate `o` of the strength of "`o` over
+    `c`" under the scorer (winning votes: `d o c` if `d o c > d c o` else `0`; margins: `d o c - d c o`;
+    pairwise opposition: `d o c`), a pair nobody ranked counting 0:0 (`worstDefeat_is_max`); boundary ties
+    are then reported by `get_n_best` (C09).  True since fix 39ed002. -/
+theorem minimax_defining {v : Pairwise} (hwf : WF v) (sc : Scorer) (n : Nat) :
+    minimax sc v n = getNBest ((candidates v).map (fun c => (c, -(worstDefeat sc v c)))) n :=
+  minimax_by_worstDefeat sc v n (fun _ hc => exists_other hwf hc)
+
+/-- `worstDefeat sc v c` is attained by some opponent and is at least the strength of every opponent -/
+theorem worstDefeat_is_max {v : Pairwise} (hwf : WF v) (sc : Scorer) {c : Cand} (hc : c ∈ candidates v) :
+    (∃ o ∈ candidates v, o ≠ c ∧ worstDefeat sc v c = pairScore sc v o c) ∧
+      ∀ o ∈ candidates v, o ≠ c → pairScore sc v o c ≤ worstDefeat sc v c :=
+  worstDefeat_spec (exists_other hwf hc)
 
 /-! ### where the current code does NOT meet the property (concrete witnesses, open findings) -/
 
@@ -313,12 +292,11 @@ theorem cw_kemeny_witness :
 theorem rankedpairs_dropped_witness :
     rankedPairs .winningVotes [((0, 1), 3), ((0, 2), 2)] 3 = .ok [Slot.cand 0, Slot.cand 1] := by decide +kernel
 
-/-- minimax prefers a candidate who never appears as the lower candidate of a pair over another
-    undefeated candidate: nobody beats `0` or `1`, yet `0` alone is elected. -/
-theorem minimax_never_loser_witness :
-    minimax .winningVotes [((0, 2), 3), ((1, 2), 3), ((2, 1), 1)] 1 = [Slot.cand 0] ∧
-    (∀ o ∈ [0, 1, 2], ¬ Beats [((0, 2), 3), ((1, 2), 3), ((2, 1), 1)] o 0) ∧
-    (∀ o ∈ [0, 1, 2], ¬ Beats [((0, 2), 3), ((1, 2), 3), ((2, 1), 1)] o 1) := by decide +kernel
+/-- (fixed by 39ed002) two undefeated candidates — one never the lower candidate of any pair, one with an
+    incoming losing pair — now tie for the single seat instead of the first being elected silently -/
+theorem minimax_never_loser_fixed :
+    minimax .winningVotes [((0, 2), 3), ((1, 2), 3), ((2, 1), 1)] 1 = [Slot.tie [0, 1]] ∧
+    minimaxPresent .winningVotes [((0, 2), 3), ((1, 2), 3), ((2, 1), 1)] 1 = [Slot.cand 0] := by decide +kernel
 
 /-- the hybrids crash on a first-preference elimination tie instead of reporting it or refusing -/
 theorem benham_elimination_tie_witness : benham exCycleProfile = .error (.other "IndexError") := by decide +kernel
